@@ -576,7 +576,7 @@ been initialized
                 try:
                     output.write(render)
                     output.flush()
-                except KeyboardInterrupt:
+                except (KeyboardInterrupt, Exception):
                     self._handle_interrupted_draw_(
                         render_data, real_render_args, output
                     )
@@ -759,6 +759,9 @@ been initialized
             except KeyboardInterrupt:
                 self._handle_interrupted_draw_(render_data, render_args, output)
                 return
+            except Exception:
+                self._handle_interrupted_draw_(render_data, render_args, output)
+                raise
             else:
                 # Move the cursor to the top-left cell of the region occupied by the
                 # render output
@@ -793,6 +796,9 @@ been initialized
                 except KeyboardInterrupt:
                     self._handle_interrupted_draw_(render_data, render_args, output)
                     return
+                except Exception:
+                    self._handle_interrupted_draw_(render_data, render_args, output)
+                    raise
 
                 write(cursor_to_render_top_left)
                 flush()
@@ -991,8 +997,8 @@ been initialized
             output: The text I/O stream to which the render output was being written.
 
         Called by the base implementations of :py:meth:`draw` (for non-animations)
-        and :py:meth:`_animate_` when :py:class:`KeyboardInterrupt` is raised while
-        writing a render output.
+        and :py:meth:`_animate_` when :py:class:`KeyboardInterrupt` or any other
+        exception is raised while writing a render output.
 
         The base implementation does nothing.
 
